@@ -2,8 +2,10 @@ package zzvh
 
 import (
 	"fmt"
+	"strings"
 
 	"github.com/evolbioinfo/goalign/align"
+	"github.com/evolbioinfo/gotree/acr"
 	"github.com/evolbioinfo/gotree/asr"
 	"github.com/evolbioinfo/gotree/tree"
 )
@@ -104,4 +106,69 @@ func H_C18_asr() {
 	nsteps, err := asr.ParsimonyAsr(t, a, algo, false)
 	sxObserve("class", fmt.Sprintf("algo=%d", algo))
 	sxObserve("outcome", fmt.Sprint(err == nil, nsteps)+" "+t.Newick())
+}
+
+// per-site state sets encoded by asr in a node comment: "{AC}G" -> [{A,C},{G}]
+func c12asrSites(s string) []string {
+	var out []string
+	for i := 0; i < len(s); i++ {
+		if s[i] == '{' {
+			j := i + 1
+			for j < len(s) && s[j] != '}' {
+				j++
+			}
+			out = append(out, s[i+1:j])
+			i = j
+		} else {
+			out = append(out, s[i:i+1])
+		}
+	}
+	return out
+}
+
+// H_C12_asr_vs_acr: on unambiguous nucleotide alignments the sequence
+// reconstruction agrees site by site with the single-character reconstruction
+// (same step count, same state set at every node).
+func H_C12_asr_vs_acr() {
+	n := sxParam("n", 4)
+	t := genTree(n, 2, false)
+	t2 := t.Clone()
+	algoIdx := sxChoose("algo", 3)
+	asrAlgo := []int{asr.ALGO_DOWNPASS, asr.ALGO_DELTRAN, asr.ALGO_ACCTRAN}[algoIdx]
+	acrAlgo := []int{acr.ALGO_DOWNPASS, acr.ALGO_DELTRAN, acr.ALGO_ACCTRAN}[algoIdx]
+	letters := "ACG"
+	a := align.NewAlign(align.NUCLEOTIDS)
+	chars := map[string]string{}
+	for _, tp := range t.Tips() {
+		c := letters[sxChoose("state_"+tp.Name(), len(letters))]
+		sxAssert(a.AddSequence(tp.Name(), string([]byte{c}), "") == nil, "AddSequence")
+		chars[tp.Name()] = string([]byte{c})
+	}
+	sxReach("ready")
+	nsteps, err := asr.ParsimonyAsr(t, a, asrAlgo, false)
+	sxAssert(err == nil, "ParsimonyAsr succeeds")
+	_, steps2, err2 := acr.ParsimonyAcr(t2, chars, acrAlgo, false)
+	sxAssert(err2 == nil, "ParsimonyAcr succeeds")
+	sxAssert(len(nsteps) >= 1 && nsteps[0] == steps2, "same number of steps as the single-character reconstruction")
+	n1, n2 := t.Nodes(), t2.Nodes()
+	sxAssert(len(n1) == len(n2), "same nodes")
+	for i := range n1 {
+		if i >= len(n2) {
+			break
+		}
+		c1, c2 := n1[i].Comments(), n2[i].Comments()
+		sxAssert(len(c1) >= 1 && len(c2) >= 1, "every node is annotated")
+		if len(c1) == 0 || len(c2) == 0 {
+			continue
+		}
+		sites := c12asrSites(c1[len(c1)-1])
+		sxAssert(len(sites) == 1, "one site")
+		if len(sites) != 1 {
+			continue
+		}
+		// acr: states separated by '|', sorted like the alphabet
+		want := strings.ReplaceAll(c2[len(c2)-1], "|", "")
+		sxAssert(sites[0] == want, "same state set at every node as the single-character reconstruction")
+	}
+	sxReach("checked")
 }
